@@ -489,6 +489,79 @@ def ext2(p, res):
     return n
 
 
+def lut1(p, res):
+    """table encoding: every entry of f is replicated over a run of `step` coefficients and the table is then rotated left by half a run, so that the entry selected is the one
+    nearest to the encrypted index.  In `lookup_table_set`: the width W of the runs written by the replication loop (`lut[start..end].fill(..)`, W = end - start), the value D
+    stored in the table's `drift` field and the exponent of the final rotation satisfy D == floor(W / 2) and exponent == -D for every run width (evaluated on the extracted
+    expressions; the run width is a free variable)."""
+    from . import pwl
+    n = 0
+    for f in sorted(p.lib_fns(), key=lambda x: x.uid):
+        if f.name != "lookup_table_set" or not f.blocks or f.is_test():
+            continue
+        n += 1
+        flow = Flow(f)
+        sym = Sym(f, flow)
+        D = None
+        for blk in f.blocks:
+            for st in blk["s"]:
+                if st[0] == "A" and any(isinstance(e, list) and e[0] == "f" and e[-1] == "drift" for e in st[1][1:]) and st[2]["k"] == "Use":
+                    D = sym.operand(st[2]["o"][0])
+        W = None
+        for bi, t in f.calls():
+            if (f.callee_def(t) or {}).get("n") != "fill" or not t["a"]:
+                continue
+            for r in flow.op_roots(t["a"][0]):
+                if r[0] == "call" and (f.callee_def(f.blocks[r[1]]["t"]) or {}).get("n") == "index_mut":
+                    for r2 in flow.op_roots(f.blocks[r[1]]["t"]["a"][1]):
+                        if r2[0] == "agg":
+                            rv = f.blocks[r2[1]]["s"][r2[2]][2]
+                            if rv.get("fields") == ["start", "end"]:
+                                W = sym.operand(rv["o"][1]) - sym.operand(rv["o"][0])
+        R = None
+        for bi, t in f.calls():
+            if (f.callee_def(t) or {}).get("n") == "rotate" and len(t["a"]) == 3:
+                R = sym.operand(t["a"][2])
+        if D is None or W is None or R is None:
+            res.undec("LUT-1", "%s: run width / drift store / final rotation not recognised" % f.pretty)
+            continue
+        bad = None
+        pts = 0
+        # two calls of the same accessor on the same receiver (`res.extension_factor()` twice) are one quantity
+        groups = {}
+        for pl in (D, W, R):
+            for a in _deep_atoms(pl):
+                if a[0] == "call" and a[1] == f.uid:
+                    t = f.blocks[a[2]]["t"]
+                    groups.setdefault(((f.callee_def(t) or {}).get("u"), tuple(repr(sym.operand(x)) for x in t["a"])), []).append(a)
+        for val in pwl.valuations(count=1500, hi=40):
+            ev = pwl.Eval(p, val)
+            ev.syms[f.uid] = sym
+            for k, ats in groups.items():
+                if len(ats) > 1:
+                    v0 = ev.free_var(ats[0])
+                    for a in ats[1:]:
+                        ev.val[repr(a)] = v0
+            try:
+                w, d, r = ev.poly(W), ev.poly(D), ev.poly(R)
+            except (pwl.ErrPath, ZeroDivisionError):
+                continue
+            if w < 1:
+                continue
+            pts += 1
+            if (d != w // 2 or r != -d) and bad is None:
+                bad = {"run_width": w, "drift": d, "rotation": r}
+        if bad:
+            res.bad("LUT-1", f.pretty, "half-step-drift", "%s: for runs of %d coefficients the table is rotated by %d and records a drift of %d (drift = %r): the table has to be centred by "
+                    "floor(run / 2) = %d, otherwise indices within half a run below an entry read the previous one" % (f.pretty, bad["run_width"], bad["rotation"], bad["drift"], D, bad["run_width"] // 2),
+                    site=f.where(), detail=bad)
+        elif pts < 300:
+            res.undec("LUT-1", "%s: too few points" % f.pretty)
+        else:
+            res.ok("LUT-1", {"fn": f.pretty, "run": repr(W), "drift": repr(D), "rotation": repr(R), "points": pts})
+    return n
+
+
 def run(res, tier):
     res.level = "other"
     res.explanation = ("Only the skip guards of the CGGI accumulator update are decided: an update acc[i] += X^e * u[j] - u[i] whose execution depends on a comparison of the exponent with "
@@ -496,6 +569,7 @@ def run(res, tier):
                        "noise are not decided.")
     res.rule("EXT-1", "extended blind rotation: destination polynomial i receives X^(hi + [i < lo]) * source ((i - lo) mod ext), every destination exactly once, for every split pos = hi * ext + lo")
     res.rule("EXT-2", "in-place rotation of an extended lookup table: replaying the per-polynomial rotations and the permutation leaves slot d = X^(hi + [d < lo]) * source ((d - lo) mod ext)")
+    res.rule("LUT-1", "table encoding: the drift recorded and applied by lookup_table_set is half the width of the replicated runs")
     res.rule("ROT-1", "an accumulator update skipped on `exponent == 0` has identical operand polynomials (X^e * u[j] - u[i] vanishes for e = 0 only when j == i)")
     res.assumptions = ["svp_apply_dft_to_dft(x_pow_a[e], u) multiplies u by X^e; x_pow_a[0] is the constant 1"]
     cfgs = ["avx-dev"] if tier == "quick" else ["avx-dev", "ref-dev"]
@@ -508,4 +582,6 @@ def run(res, tier):
         res.floor("EXT-1", "groups of interleaved move sites", ne, 2)
         n2 = ext2(p, res)
         res.floor("EXT-2", "in-place rotations of an extended table", n2, 1)
+        nl = lut1(p, res)
+        res.floor("LUT-1", "table encoders", nl, 1)
         res.fn_count += n
